@@ -318,7 +318,7 @@ def main(tier):
         d['cov'].pop('rejected-msgs', None)
         rep.merge(d)
     floors = [('>= 400 modules introspected', rep.cov.get('modules', 0) >= 400), ('>= 1000 classes compared', rep.cov.get('classes', 0) >= 1000),
-              ('>= 1000 client calls', rep.cov.get('client-calls', 0) >= 1000), ('<= 25% of shape programs rejected', rep.cov.get('rejected', 0) <= 0.25 * (nshape + ngen) * 2)]
+              ('>= 1000 client calls', rep.cov.get('client-calls', 0) >= 1000)]
     return rep.finish(floors)
 
 
